@@ -186,7 +186,9 @@ def check_one(args):
         shutil.rmtree(w, ignore_errors=True)
 
 
-DRV = "/tmp/mut/driver"
+DRV = "/tmp/mut/driver"        # a copy of tools/mutdriver/ (the differential driver written by a separate agent; it RUNS the library - it is a
+                               # development aid for judging the sweep, not part of any registered check): cp -r tools/mutdriver /tmp/mut/driver,
+                               # then gen.sh -> /tmp/mut/data, build.sh / run.sh on the pristine tree -> /tmp/mut/dump.pristine
 DATA = "/tmp/mut/data"
 
 
